@@ -31,7 +31,8 @@ class TraceCsv(Trace):
         self.signals_by_handle = set(self.rawsignals_by_handle)
 
     def parse(self, csvdata):
-        data = csvdata.strip().split("\n")  # assume row delimiter \n
+        # leading spaces belong to the first column name, only line breaks are dropped there
+        data = csvdata.lstrip("\r\n").rstrip().split("\n")  # assume row delimiter \n
         header = data[0].split(",") # assume col delimiter ,
         data = [line.split(",") for line in data[1:]]
         time_idx = header.index("Time [s]") # assume timestamp in seconds
